@@ -124,6 +124,24 @@ class History:
             T = rng.choice(self.open_T)
             ns = rng.choice(self.cfg['served'])
             if (T, ns) in self.conn:
+                # a duplicate CONNECT for a namespace this transport is
+                # already connected to is refused and changes nothing: the
+                # session of the existing connection stays what it was
+                if rng.random() < 0.7:
+                    return
+                sid = self.conn[(T, ns)]
+                op = ['connect', T, ns, None]
+                self.ops.append(op)
+                res = self.r.step(op)
+                acc = [p for p in res.get('sent', {}).get(T, [])
+                       if p['type'] == R.CONNECT]
+                if acc:
+                    return self.fail('duplicate CONNECT was accepted', res)
+                ctx.count('duplicate_connects')
+                op = ['get_session', sid, ns]
+                self.ops.append(op)
+                res = self.r.step(op)
+                self.check_get(res, sid, ns, T)
                 return
             op = ['connect', T, ns, None]
             self.ops.append(op)
@@ -249,6 +267,7 @@ def run(ctx):
     ctx.require('session_blocks', 20)
     ctx.require('saves', 20)
     ctx.require('sibling_namespace_reads', 5)
+    ctx.require('duplicate_connects', 5)
     k = 0
     while not ctx.out_of_time() and not ctx.too_many_violations():
         run_case(ctx, k)
